@@ -53,7 +53,7 @@ def expand(node: Node):
         # follow it (e.g. role) stay behind them
         index = destination_node.children.index(reference)
         destination_node.remove_child(reference)
-        Node.delete_node_instance(reference.id)
+        Node.delete_node(reference)
         for source_child in source_node.children:
             source_child_copy = source_child.copy()
             destination_node.add_child(source_child_copy, index)
